@@ -85,8 +85,8 @@ theorem stepOp_facts (o : Op) (d : Dev) {r d'} (hr : stepOp o d = (r, d')) : Ste
   | write bs => simp only [stepOp] at hr; exact devCall_facts _ _ _ (act_write bs) hr
   | seek p => simp only [stepOp] at hr; exact devCall_facts _ _ _ (act_seek p) hr
   | flush => simp only [stepOp] at hr; exact devCall_facts _ _ _ act_flush hr
-  | now => simp only [stepOp] at hr; cases hr; constructor <;> split <;> simp
-  | today => simp only [stepOp] at hr; cases hr; constructor <;> split <;> simp
+  | now => simp only [stepOp] at hr; cases hr; constructor <;> simp
+  | today => simp only [stepOp] at hr; cases hr; constructor <;> simp
   | getFs => simp only [stepOp] at hr; cases hr; constructor <;> simp
   | setFs fs => simp only [stepOp] at hr; cases hr; constructor <;> simp
 
@@ -98,8 +98,8 @@ theorem stepOp_outcome (o : Op) (d : Dev) (h : d.fault = none) {r d'} (hr : step
   | write bs => simp only [stepOp] at hr; exact devCall_outcome _ _ _ (act_write bs) h hr
   | seek p => simp only [stepOp] at hr; exact devCall_outcome _ _ _ (act_seek p) h hr
   | flush => simp only [stepOp] at hr; exact devCall_outcome _ _ _ act_flush h hr
-  | now => simp only [stepOp] at hr; cases hr; left; split <;> simp [h]
-  | today => simp only [stepOp] at hr; cases hr; left; split <;> simp [h]
+  | now => simp only [stepOp] at hr; cases hr; left; simp [h]
+  | today => simp only [stepOp] at hr; cases hr; left; simp [h]
   | getFs => simp only [stepOp] at hr; cases hr; left; simp [h]
   | setFs fs => simp only [stepOp] at hr; cases hr; left; simp [h]
 
@@ -988,8 +988,8 @@ theorem stepOp_noWrite (o : Op) (ho : o.isWrite = false) (d : Dev) {r d'} (hr : 
     refine dc _ _ ?_ hr
     intro d0 r d1 h; cases h
     exact ⟨rfl, by simp [Dev.writesOf, LogItem.isWrite]⟩
-  | now => simp only [stepOp] at hr; cases hr; split <;> exact ⟨rfl, rfl⟩
-  | today => simp only [stepOp] at hr; cases hr; split <;> exact ⟨rfl, rfl⟩
+  | now => simp only [stepOp] at hr; cases hr; exact ⟨rfl, rfl⟩
+  | today => simp only [stepOp] at hr; cases hr; exact ⟨rfl, rfl⟩
   | getFs => simp only [stepOp] at hr; cases hr; exact ⟨rfl, rfl⟩
   | setFs fs => simp only [stepOp] at hr; cases hr; exact ⟨rfl, rfl⟩
 
@@ -1106,8 +1106,8 @@ theorem stepOp_quiet_fs (o : Op) (ho : o.isQuiet = true) (d : Dev) {r d'} (hr : 
     | cur x => simp only at h; split at h <;> cases h <;> rfl
     | fromEnd x => simp only at h; split at h <;> cases h <;> rfl
   | flush => simp only [stepOp] at hr; exact dc _ _ (by intro d0 r d1 h; cases h; rfl) hr
-  | now => simp only [stepOp] at hr; cases hr; split <;> rfl
-  | today => simp only [stepOp] at hr; cases hr; split <;> rfl
+  | now => simp only [stepOp] at hr; cases hr; rfl
+  | today => simp only [stepOp] at hr; cases hr; rfl
   | getFs => simp only [stepOp] at hr; cases hr; rfl
 
 theorem quietOps_fs {α} {p : Prog α} (hp : QuietOps p) :
@@ -1447,8 +1447,8 @@ theorem stepOp_logExtends (o : Op) (d : Dev) (r : Except Err (Resp o)) (d' : Dev
     | cur x => simp only at h; split at h <;> cases h <;> exact ⟨[], rfl⟩
     | fromEnd x => simp only at h; split at h <;> cases h <;> exact ⟨[], rfl⟩
   | flush => simp only [stepOp] at hr; exact dc _ _ (by intro d0 r d1 h; cases h; exact ⟨[_], rfl⟩) hr
-  | now => simp only [stepOp] at hr; cases hr; split <;> exact ⟨[], rfl⟩
-  | today => simp only [stepOp] at hr; cases hr; split <;> exact ⟨[], rfl⟩
+  | now => simp only [stepOp] at hr; cases hr; exact ⟨[], rfl⟩
+  | today => simp only [stepOp] at hr; cases hr; exact ⟨[], rfl⟩
   | getFs => simp only [stepOp] at hr; cases hr; exact ⟨[], rfl⟩
   | setFs fs => simp only [stepOp] at hr; cases hr; exact ⟨[], rfl⟩
 
